@@ -449,7 +449,12 @@ fn corrupt(rng: &mut Rng, d: &mut gen::DictSrc) -> String {
 }
 
 fn main() {
-    std::panic::set_hook(Box::new(|_| {}));
+    // panics of the code under test are observations, not noise (VERIF_PANIC_MSG=1 prints where they happen)
+    if std::env::var("VERIF_PANIC_MSG").is_ok() {
+        std::panic::set_hook(Box::new(|info| eprintln!("PANIC: {info}")));
+    } else {
+        std::panic::set_hook(Box::new(|_| {}));
+    }
     let args: Vec<String> = std::env::args().collect();
     if args.len() < 2 {
         eprintln!("usage: vharness <stream> ...");
@@ -511,6 +516,7 @@ fn main() {
         "train" => match args[2].as_str() {
             "replay" => trainer::replay(&mut out),
             "probes" => trainer::probes(&mut out),
+            "f27" => trainer::f27(&mut out),
             mode => {
                 let seed: u64 = args[3].parse().unwrap();
                 let n: usize = args[4].parse().unwrap();
